@@ -275,4 +275,61 @@ theorem emitFields_err {afs : List Tree} {fields : List String} {e : Err}
           · cases hr; simp
           · cases hr
 
+/-! ### valid requests and what the client must see -/
+
+/-- a valid request: at least one file, all files exist, every requested field is in every file,
+every such column is at least 1-D and holds `count · itemsize` bytes, all files agree on the item
+width `w f` of field `f`, and count and width fit the int64 / int32 headers -/
+structure Valid (files : List (Option Tree)) (fields : List String) (w : String → Nat) : Prop where
+  nonempty : files ≠ []
+  allExist : ∀ f ∈ files, f ≠ none
+  present : ∀ t ∈ openAll files, ∀ f ∈ fields, (t.lookup f).isSome
+  shaped : ∀ f ∈ fields, ∀ c ∈ colsTotal (openAll files) f,
+    c.shape ≠ [] ∧ c.raw.length = c.count * c.itemsize
+  width : ∀ f ∈ fields, ∀ c ∈ colsTotal (openAll files) f, c.itemsize = w f
+  widthFits : ∀ f ∈ fields, w f < 2 ^ 31
+  countFits : ∀ f ∈ fields, ((colsTotal (openAll files) f).map Column.count).sum < 2 ^ 63
+
+/-- the record the client must read for field `f`: total element count over the files, item
+width, and the per-file raw bytes concatenated in file order -/
+def record (afs : List Tree) (w : String → Nat) (f : String) : Nat × Nat × Bytes :=
+  (((colsTotal afs f).map Column.count).sum, w f, ((colsTotal afs f).map (·.raw)).flatten)
+
+theorem record_length {files : List (Option Tree)} {fields : List String} {w : String → Nat}
+    (hv : Valid files fields w) {f : String} (hf : f ∈ fields) :
+    (record (openAll files) w f).2.2.length =
+      (record (openAll files) w f).1 * (record (openAll files) w f).2.1 := by
+  simp only [record]
+  apply raw_total
+  intro c hc
+  rw [(hv.shaped f hf c hc).2, hv.width f hf c hc]
+
+theorem emitFields_parse {files : List (Option Tree)} {w : String → Nat} :
+    ∀ (fields : List String), Valid files fields w →
+    ∃ bytes, emitFields (openAll files) fields = ⟨bytes, none, true⟩ ∧
+      parse fields.length bytes = some (fields.map (record (openAll files) w)) := by
+  intro fields
+  induction fields with
+  | nil => intro _; exact ⟨[], rfl, rfl⟩
+  | cons f fs ih =>
+    intro hv
+    have hv' : Valid files fs w :=
+      { nonempty := hv.nonempty, allExist := hv.allExist
+        present := fun t ht g hg => hv.present t ht g (List.mem_cons_of_mem _ hg)
+        shaped := fun g hg => hv.shaped g (List.mem_cons_of_mem _ hg)
+        width := fun g hg => hv.width g (List.mem_cons_of_mem _ hg)
+        widthFits := fun g hg => hv.widthFits g (List.mem_cons_of_mem _ hg)
+        countFits := fun g hg => hv.countFits g (List.mem_cons_of_mem _ hg) }
+    obtain ⟨bytes, he, hp⟩ := ih hv'
+    have hf : f ∈ f :: fs := by simp
+    have hrec := fieldRecord_ok (w := w f) (openAll_ne_nil hv.nonempty hv.allExist)
+      (fun t ht => hv.present t ht f hf) (fun c hc => (hv.shaped f hf c hc).1) (hv.width f hf)
+    refine ⟨_, by simp only [emitFields, hrec, he]; rfl, ?_⟩
+    have hlen := record_length hv hf
+    simp only [record] at hlen
+    simp only [List.length_cons, List.append_assoc, List.map_cons]
+    rw [parse_step _ _ _ _ _ (by have := hv.countFits f hf; omega)
+      (by have := hv.widthFits f hf; omega) hlen, hp]
+    simp [record]
+
 end AbacusVerif.Pipe
